@@ -659,6 +659,27 @@ func scenarios(thorough bool) []scen {
 			}
 		}
 	}
+	// 1b. dense module counts where the whole list is ONE chunk whatever order the device's module map is iterated
+	// in: the chunk is the array [start, len, name...], whose head grows at 24 and at 256 items (20 and 252 extra
+	// modules next to m1 and devmod); the sparse counts above reach such a chunk only by luck of the map order
+	dense := []int{}
+	for i := 4; i <= 40; i++ {
+		dense = append(dense, i)
+	}
+	for _, p := range pairs {
+		for _, n := range dense {
+			add(scen{Label: "modules-dense", RecvMTU: p.recv, SendMTU: p.send, Extra: n, ExtraLen: 4,
+				Owner:  []oModSpec{{Name: "m1", Rounds: [][]msgSpec{{{Name: "go", Size: 3, Seed: 1}}}}},
+				Device: []dModSpec{baseDevice("m1", map[string][]msgSpec{"go": {{Name: "r", Size: 5, Seed: 2}}}, nil)}})
+		}
+		if p.send >= 4096 {
+			for n := 246; n <= 258; n++ {
+				add(scen{Label: "modules-dense", RecvMTU: p.recv, SendMTU: p.send, Extra: n, ExtraLen: 4,
+					Owner:  []oModSpec{{Name: "m1", Rounds: [][]msgSpec{{{Name: "go", Size: 3, Seed: 1}}}}},
+					Device: []dModSpec{baseDevice("m1", map[string][]msgSpec{"go": {{Name: "r", Size: 5, Seed: 2}}}, nil)}})
+			}
+		}
+	}
 	// 2. device reply sizes across every remainder of the device's send budget
 	for _, p := range pairs {
 		send := int(p.send)
